@@ -52,8 +52,69 @@ def run(facts, key, fields=None):
     return it.run_fn(actual(facts, key), fields=fields)
 
 
+_BOOLLIKE_DONE = {}
+
+
+def boollike_candidates(facts):
+    """Enums of the generator with exactly two field-less variants that the reference tables do not know: a two-valued
+    internal type, i.e. a boolean under another name."""
+    import json as _json, os as _os
+
+    try:
+        ref_text = open(_os.path.join(F.VERIF, "spec", "codegen.json")).read()
+    except OSError:
+        ref_text = ""
+    out = []
+    for name, en in sorted(facts.enums.items()):
+        vs = en.get("variants", [])
+        if len(vs) != 2 or any(v.get("fields") for v in vs) or (en.get("generics") or "").strip("<> "):
+            continue
+        if tuple(en.get("_module", ()))[:1] != ("scheme",):
+            continue
+        if ("%s::" % name) in ref_text:
+            continue
+        out.append((name, [v["name"] for v in vs]))
+    return out
+
+
+def ensure_boollike(facts):
+    """Choose, once per tree, which variant of each boolean-like enum is read as `true`: the reading under which the tables
+    agree best with the reference.  A consistent renaming of an internal two-valued datum cannot hide a change of behaviour
+    (caller and callee are renamed alike); if the tables differ under both readings they are reported under the better one."""
+    k = id(facts)
+    if k in _BOOLLIKE_DONE:
+        return
+    _BOOLLIKE_DONE[k] = True
+    cands = boollike_candidates(facts)
+    if not cands:
+        return
+    import json as _json, os as _os
+
+    spec = _json.load(open(_os.path.join(F.VERIF, "spec", "codegen.json")))["tables"]
+    from . import mgrstate
+
+    for name, (a, b) in cands:
+        best = None
+        for sigma in ({a: True, b: False}, {a: False, b: True}):
+            emit.BOOLLIKE[name] = sigma
+            mgrstate._CACHE.clear()
+            score = 0
+            try:
+                for tk, rows in all_tables(facts).items():
+                    g, w = minimise(_canon_effects(expand(plain(rows)))), minimise(_canon_effects(expand(spec.get(tk, []))))
+                    score += sum(1 for key in set(g) | set(w) if g.get(key) != w.get(key))
+            except Exception:
+                score = 10**9
+            if best is None or score < best[0]:
+                best = (score, sigma)
+        emit.BOOLLIKE[name] = best[1]
+        mgrstate._CACHE.clear()
+        facts.normalised.append("enum %s read as a boolean (%s = true): %d table rows differ from the reference under this reading" % (name, [v for v, t in best[1].items() if t][0], best[0]))
+
+
 def table(facts, key, fields=None):
     """[(condsig, tokens, outcome, effects, state)]"""
+    ensure_boollike(facts)
     rows = []
     for st, v in run(facts, key, fields):
         st.buf = emit.single_element_joins(st.buf, st.conds)
